@@ -1,12 +1,12 @@
 """Obligations of Merkle path verification (native and in-circuit)."""
 NATIVE = [
-    dict(id='merkle.walk', fn='hash::merkle_proofs::verify_batch_merkle_proof_to_cap', kind='assign', var='current_digest',
-         src=['c:two_to_one', 'F:MerkleProof.siblings', 'p:leaf_index', 'c:hash_or_noop', 'p:leaf_data'],
+    dict(id='merkle.walk', fn='hash::merkle_proofs::verify_batch_merkle_proof_to_cap', free=True, kind='assign', var='current_digest',
+         src=['c:two_to_one', 'F:MerkleProof.siblings', 'c:hash_or_noop', 'p:leaf_data'],
          ctx={'loop': ['F:MerkleProof.siblings']}, whole=True, why='every sibling is hashed in, on the side given by the index bit'),
-    dict(id='merkle.final', fn='hash::merkle_proofs::verify_batch_merkle_proof_to_cap', kind='guard',
+    dict(id='merkle.final', fn='hash::merkle_proofs::verify_batch_merkle_proof_to_cap', free=True, kind='guard',
          src=['c:two_to_one', 'c:hash_or_noop', 'p:leaf_data', 'F:MerkleProof.siblings', 'p:merkle_cap', 'p:leaf_index'],
          ctx={'noloop': True, 'uncond': True}, why='the digest reached must equal the cap entry selected by the remaining index bits'),
-    dict(id='merkle.delegate', fn='hash::merkle_proofs::verify_merkle_proof_to_cap', kind='ret',
+    dict(id='merkle.delegate', fn='hash::merkle_proofs::verify_merkle_proof_to_cap', free=True, kind='ret',
          src=['c:verify_batch_merkle_proof_to_cap', 'p:leaf_data', 'p:leaf_index', 'p:merkle_cap', 'p:proof'], why='single-leaf verification delegates every argument'),
 ]
 CIRCUIT = [
